@@ -1,0 +1,18 @@
+//go:build verif
+// +build verif
+
+package tdpos
+
+import "github.com/xuperchain/xupercore/kernel/consensus/base"
+
+// VerifMinerScheduling exposes the package-private slot schedule of a tdpos instance to the
+// verification harness (/verif, property C16). It evaluates the schedule object that the
+// instance's own CheckMinerMatch uses. ok is false if c is not a tdpos instance.
+func VerifMinerScheduling(c base.ConsensusImplInterface, timestamp int64) (term, pos, blockPos int64, ok bool) {
+	tp, isTdpos := c.(*tdposConsensus)
+	if !isTdpos || tp == nil || tp.election == nil {
+		return 0, 0, 0, false
+	}
+	term, pos, blockPos = tp.election.minerScheduling(timestamp)
+	return term, pos, blockPos, true
+}
